@@ -292,3 +292,152 @@ Proof.
   match goal with Hp : fold_left (partial_step _ _) _ (Some _) = Some _ |- _ => eapply partial_steps_KN; [|exact Hp] end.
   apply majors_KN. split; [constructor|intros ? []].
 Qed.
+
+(* ------------------------------------------------------------------ partial alleles carry only variants in regions their fusion retains
+   Every major allele of every catalogue the loader returns is either made of database alleles (none of its minor alleles has '#'
+   in its name) or - the partial alleles built for the left fusions - all its variants, core and minor, lie in regions in which
+   its own structural configuration has a positive copy number.  Side condition on the database: no allele name contains '#'. *)
+Definition hash_free (db : rawdb) : bool := forallb (fun ra => negb (has_char 35 (allele_name (ra_key ra)))) (rd_alleles db).
+
+Lemma aset_keys_from {V} k (v : V) l x : In x (map fst (aset str_eqb k v l)) -> x = k \/ In x (map fst l).
+Proof. apply aset_keys_in. Qed.
+Lemma allele_loop_keys t al db regs groups ras : forall st del acc st' del' alleles,
+  allele_loop t al db regs groups ras st del acc = Some (st', del', alleles) ->
+  forall n, In n (map fst alleles) -> In n (map fst acc) \/ In n (map (fun ra => allele_name (ra_key ra)) ras).
+Proof.
+  induction ras as [|ra r IH]; intros st del acc st' del' alleles H n Hn; cbn [allele_loop] in H.
+  - injection H as <- <- <-. left. exact Hn.
+  - destruct (ra_ignored ra).
+    + destruct (IH _ _ _ _ _ _ H n Hn) as [G|G]; [left; exact G|right; right; exact G].
+    + destruct (existsb _ (ra_entries ra)).
+      * destruct (IH _ _ _ _ _ _ H n Hn) as [G|G]; [|right; right; exact G].
+        apply aset_keys_from in G as [->|G]; [right; left; reflexivity|left; exact G].
+      * destruct (process_list _ _ _ _ _ _ _ _ _) as [[st1 ms]|]; [|discriminate].
+        destruct (IH _ _ _ _ _ _ H n Hn) as [G|G]; [|right; right; exact G].
+        apply aset_keys_from in G as [->|G]; [right; left; reflexivity|left; exact G].
+Qed.
+
+Section Retained.
+  Variables (regs : list (list region)) (cfgs : list (str * cnconf)).
+  Definition nohash (a : majorA) : Prop := forall m, In m (ma_minors a) -> has_char 35 (mi_name m) = false.
+  Definition PRT (a : majorA) : Prop :=
+    (forall x, In x (ma_core a) -> retained regs cfgs (ma_cfg a) x = true) /\
+    (forall m x, In m (ma_minors a) -> In x (mi_muts m) -> retained regs cfgs (ma_cfg a) x = true).
+  Definition RP (d : list (str * majorA)) : Prop := forall kv, In kv d -> nohash (snd kv) \/ PRT (snd kv).
+
+  Lemma partial_minors_ret f a m x : In m (partial_minors regs cfgs f a) -> In x (mi_muts m) -> retained regs cfgs f x = true.
+  Proof. unfold partial_minors. intros Hm Hx. apply in_map_iff in Hm as (sa & <- & _). cbn [mi_muts] in Hx. apply preserved_spec in Hx. apply Hx. Qed.
+
+  Lemma add_partial_PRT f add a : (forall kv, In kv add -> ma_cfg (snd kv) = f /\ PRT (snd kv)) ->
+    forall kv, In kv (add_partial regs cfgs f add a) -> ma_cfg (snd kv) = f /\ PRT (snd kv).
+  Proof.
+    intros Hadd kv. unfold add_partial. destruct (amem mset_eqb _ add).
+    - intros H. apply in_map_iff in H as (kv0 & E & H0). destruct (Hadd kv0 H0) as [Ef [P1 P2]].
+      destruct (mset_eqb _ (fst kv0)); [|rewrite <- E; split; [exact Ef|split; assumption]].
+      rewrite <- E. cbn [snd ma_cfg]. split; [exact Ef|]. split; cbn [ma_core ma_minors ma_cfg]; [exact P1|].
+      intros m x Hm Hx. apply fold_minor_upd_in in Hm as [Hm|Hm]; [|eapply P2; eassumption].
+      rewrite Ef. eapply partial_minors_ret; eassumption.
+    - intros H. apply in_app_or in H as [H|[<-|[]]]; [apply Hadd, H|]. cbn [snd ma_cfg]. split; [reflexivity|].
+      split; cbn [ma_core ma_minors ma_cfg].
+      + intros x Hx. apply preserved_spec in Hx. apply Hx.
+      + intros m x Hm Hx. apply fold_minor_upd_in in Hm as [Hm|[]]. eapply partial_minors_ret; eassumption.
+  Qed.
+  Lemma partial_step_RP als f als' : RP als -> partial_step regs cfgs (Some als) f = Some als' -> RP als'.
+  Proof.
+    intros Hals H. unfold partial_step in H. destruct (alookup str_eqb f als) as [fa|]; [|discriminate].
+    destruct (negb _); [injection H as <-; exact Hals|]. injection H as <-.
+    set (step := fun add (kv : str * majorA) => if str_eqb (ma_cfg (snd kv)) [49] then add_partial regs cfgs f add (snd kv) else add).
+    assert (Hadd : forall l add, (forall kv, In kv add -> ma_cfg (snd kv) = f /\ PRT (snd kv)) ->
+                                 forall kv, In kv (fold_left step l add) -> ma_cfg (snd kv) = f /\ PRT (snd kv)).
+    { induction l as [|kv0 l IH]; intros add Ha; cbn [fold_left]; [exact Ha|]. apply IH.
+      unfold step. destruct (str_eqb _ _); [|exact Ha]. apply add_partial_PRT. exact Ha. }
+    specialize (Hadd als [] (fun _ F => match F with end)).
+    generalize dependent (fold_left step als []). intros add Hadd.
+    assert (G : forall d, RP d -> RP (fold_left (fun l (kv : list mut * majorA) => aset str_eqb (ma_name (snd kv)) (snd kv) l) add d)).
+    { induction add as [|kv0 add IH]; intros d Hd; cbn [fold_left]; [exact Hd|]. apply IH; [intros; apply Hadd; right; assumption|].
+      intros kv Hkv. apply in_aset_val in Hkv as [E|Hkv]; [rewrite E; right; apply (Hadd kv0 (or_introl eq_refl))|apply Hd, Hkv]. }
+    apply G. intros kv Hkv. apply in_adel in Hkv. apply Hals, Hkv.
+  Qed.
+  Lemma partial_steps_RP lefts : forall als als', RP als -> fold_left (partial_step regs cfgs) lefts (Some als) = Some als' -> RP als'.
+  Proof.
+    induction lefts as [|f l IH]; intros als als' Hals H; cbn [fold_left] in H; [injection H as <-; exact Hals|].
+    destruct (partial_step regs cfgs (Some als) f) as [als1|] eqn:E; [|rewrite partial_steps_none in H; discriminate].
+    eapply IH; [|exact H]. eapply partial_step_RP; eassumption.
+  Qed.
+  Lemma dedup_major_RP a : nohash a \/ PRT a -> nohash (fst (dedup_major a)) \/ PRT (fst (dedup_major a)).
+  Proof.
+    assert (S : forall m, In m (ma_minors (fst (dedup_major a))) -> exists m0, In m0 (ma_minors a) /\ mi_name m = mi_name m0 /\
+                  exists m1, In m1 (ma_minors a) /\ mi_muts m = mi_muts m1).
+    { unfold dedup_major. cbn [fst ma_minors]. intros m Hm. apply in_flat_map in Hm as (g & Hg & Hm).
+      (* members of a group are minors of a with the group's key *)
+      assert (Hcons : forall v, In v (snd g) -> mi_muts v = fst g /\ In v (ma_minors a)).
+      { intros v Hv. destruct g as [k0 vs]. cbn [fst snd] in *. split.
+        - eapply (gfold_key_consistent mset_eqb mset_eqb_eq mi_muts (fun m : minorA => m) mi_muts (ma_minors a)); eauto. intros ? ? ? [].
+        - pose proof (gfold_members mset_eqb mi_muts (fun m : minorA => m) (ma_minors a) []) as P. cbn [members map concat app] in P.
+          rewrite map_id in P. eapply Permutation_in; [exact P|]. unfold members. apply in_concat. exists vs. split; [|exact Hv].
+          apply in_map_iff. exists (k0, vs). auto. }
+      destruct (str_min (map mi_name (snd g))) as [mn|] eqn:Emin; [|destruct Hm].
+      destruct (find (fun x => str_eqb (mi_name x) mn) (snd g)) as [y|] eqn:Ef; [|destruct Hm]. destruct Hm as [<-|[]].
+      apply find_some in Ef as [Hy Ey]. apply str_eqb_eq' in Ey. destruct (Hcons y Hy) as [Ky Iy].
+      exists y. split; [exact Iy|]. split; [cbn [mi_name]; symmetry; exact Ey|]. exists y. split; [exact Iy|]. cbn [mi_muts]. symmetry. exact Ky. }
+    intros [N|[P1 P2]].
+    - left. intros m Hm. destruct (S m Hm) as (m0 & H0 & E & _). rewrite E. apply N, H0.
+    - right. split; [exact P1|]. intros m x Hm Hx. destruct (S m Hm) as (_ & _ & _ & m1 & H1 & E). rewrite E in Hx.
+      change (ma_cfg (fst (dedup_major a))) with (ma_cfg a). eapply P2; eassumption.
+  Qed.
+  Lemma final_of_RP withp : RP withp -> RP (final_of withp).
+  Proof. intros H [k a] Hin. apply final_of_in in Hin as (a0 & Hin & ->). cbn [snd]. apply dedup_major_RP. apply (H _ Hin). Qed.
+End Retained.
+
+Lemma cn_at_map cfgs (h : str * cnconf -> cnconf) f gr : (forall kc, cc_cn (h kc) = cc_cn (snd kc)) ->
+  cn_at (map (fun kc => (fst kc, h kc)) cfgs) f gr = cn_at cfgs f gr.
+Proof.
+  intros Hh. unfold cn_at. induction cfgs as [|[k0 c0] r IH]; [reflexivity|]. cbn [map alookup fst snd].
+  destruct (str_eqb f k0); [rewrite Hh; reflexivity|exact IH].
+Qed.
+Lemma retained_map regs cfgs (h : str * cnconf -> cnconf) f x : (forall kc, cc_cn (h kc) = cc_cn (snd kc)) ->
+  retained regs (map (fun kc => (fst kc, h kc)) cfgs) f x = retained regs cfgs f x.
+Proof. intros Hh. unfold retained. destruct (region_at regs (fst x)) as [gr|]; [|reflexivity]. rewrite cn_at_map by exact Hh. reflexivity. Qed.
+
+Lemma group_members_from {K V X} (eqb : K -> K -> bool) (key : X -> K) (val : X -> V) l g k vs v :
+  g = gfold eqb key val l [] -> In (k, vs) g -> In v vs -> In v (map val l).
+Proof.
+  intros -> Hg Hv. pose proof (gfold_members eqb key val l []) as P. cbn [members map concat app] in P.
+  eapply Permutation_in; [exact P|]. unfold members. apply in_concat. exists vs. split; [|exact Hv]. apply in_map_iff. exists (k, vs). auto.
+Qed.
+
+Lemma majors_RP regs cfgs alleles changed : (forall n, In n (map fst alleles) -> has_char 35 n = false) ->
+  forall (l : list ((gkey * list str) * (gkey * str))) d, RP regs cfgs d ->
+  RP regs cfgs (fold_left (fun l (gn : (gkey * list str) * (gkey * str)) =>
+                             aset str_eqb (snd (snd gn)) (make_major alleles changed (snd (snd gn)) (fst gn)) l) l d).
+Proof.
+  intros NH. induction l as [|gn l IH]; intros d Hd; cbn [fold_left]; [exact Hd|]. apply IH.
+  intros kv Hkv. apply in_aset_val in Hkv as [E|Hkv]; [|apply Hd, Hkv]. rewrite E. left.
+  intros m Hm. cbn [make_major ma_minors] in Hm. apply in_flat_map in Hm as (sa & _ & Hm).
+  destruct (alookup str_eqb sa alleles) as [pm|] eqn:El; [|destruct Hm]. destruct Hm as [<-|[]]. cbn [mi_name].
+  apply NH. apply in_map_iff. exists (sa, pm). split; [reflexivity|].
+  clear - El. induction alleles as [|[k v] r IH]; [discriminate|]. cbn [alookup] in El. destruct (str_eqb sa k) eqn:E.
+  - apply str_eqb_eq' in E. subst k. injection El as ->. left. reflexivity.
+  - right. apply IH. exact El.
+Qed.
+
+Theorem load_partials_retained t al db c : load t al db = Some c -> hash_free db = true ->
+  forall kv, In kv (cat_alleles c) ->
+    (forall m, In m (ma_minors (snd kv)) -> has_char 35 (mi_name m) = false) \/
+    ((forall x, In x (ma_core (snd kv)) -> retained (cat_regions c) (cat_cfgs c) (ma_cfg (snd kv)) x = true) /\
+     (forall m x, In m (ma_minors (snd kv)) -> In x (mi_muts m) -> retained (cat_regions c) (cat_cfgs c) (ma_cfg (snd kv)) x = true)).
+Proof.
+  intros H HF. unfold load in H. repeat inv_match H. injection H as <-. cbn [cat_alleles cat_regions cat_cfgs].
+  match goal with Ha : allele_loop _ _ _ _ _ _ _ _ _ = Some (_, _, ?alleles) |- _ =>
+    assert (NH : forall nm, In nm (map fst alleles) -> has_char 35 nm = false);
+    [intros nm Hnm; destruct (allele_loop_keys _ _ _ _ _ _ _ _ _ _ _ _ Ha nm Hnm) as [[]|G];
+     apply in_map_iff in G as (ra & <- & Hra); unfold hash_free in HF; rewrite forallb_forall in HF; specialize (HF ra Hra);
+     apply negb_true_iff in HF; exact HF|] end.
+  match goal with Hp : fold_left (partial_step ?regs ?cfgs) _ (Some _) = Some ?withp |- _ =>
+    assert (R : RP regs cfgs (final_of withp));
+    [apply final_of_RP; eapply partial_steps_RP; [|exact Hp]; apply majors_RP; [exact NH|intros ? []]|] end.
+  intros kv Hkv. destruct (R kv Hkv) as [N|[P1 P2]]; [left; exact N|right].
+  split.
+  - intros x Hx. rewrite retained_map by (intros; reflexivity). apply P1, Hx.
+  - intros m x Hm Hx. rewrite retained_map by (intros; reflexivity). eapply P2; eassumption.
+Qed.
